@@ -1410,6 +1410,15 @@ class PyCdlib:
 
                 d.set_extent_location(current_extent,
                                       current_extent - part_start)
+                if d.is_parent():
+                    # The parent identifier points at the File Entry of the
+                    # directory above this one (the root is its own parent),
+                    # which was assigned earlier in this loop.  We leave the
+                    # implementation use (unique ID) of the ICB alone.
+                    parent_entry = udf_file_entry
+                    if udf_file_entry.parent is not None:
+                        parent_entry = udf_file_entry.parent
+                    d.icb.log_block_num = parent_entry.extent_location() - part_start
                 if not d.is_parent() and d.file_entry is not None:
                     if d.is_dir():
                         udf_file_entries.append((d.file_entry, d))
